@@ -13,9 +13,11 @@ def run(tier: str, seed: int):
         cfgs = list(F.fam_faults(1, 4, max_faults=1, reqs='subsets')) + list(F.fam_faults(2, 3, max_faults=2, reqs='subsets', pre=True))
         serial = list(F.fam_faults(1, 3, max_faults=2, kinds=('raise',)))
         rule = 'all DAG shapes n<=4 x requested subsets x single fault (raise|died) x continue_on_failure; n<=3 fault sets <=2 x pre-cached subsets; every completion order (batch<=2)'
+        e3c = list(F.fam_e3(F.fam_faults(1, 3, max_faults=1, reqs='sinks'), workers=(1, 2), die_exit0=(False, True)))
     else:
         cfgs = (list(F.fam_faults(1, 4, max_faults=2, reqs='subsets', batch=3)) + list(F.fam_faults(5, 5, max_faults=1, reqs='sinks'))
                 + list(F.fam_faults(2, 4, max_faults=2, reqs='sinks', pre=True)))
         serial = list(F.fam_faults(1, 4, max_faults=2, kinds=('raise',)))
         rule = 'n<=4 fault sets <=2 batch<=3; n=5 single faults; pre-cache x faults n<=4'
-    return run_e2_property('C10', tier, seed, cfgs, serial_configs=serial, rule=rule, assumptions=ASSUME)
+        e3c = list(F.fam_e3(F.fam_faults(1, 3, max_faults=2), workers=(1, 2, None), die_exit0=(False, True))) + list(F.fam_e3(F.fam_faults(4, 4, max_faults=1, reqs='sinks'), workers=(2,), liveness=False))
+    return run_e2_property('C10', tier, seed, cfgs, serial_configs=serial, e3_configs=e3c, rule=rule, assumptions=ASSUME)
